@@ -8,16 +8,17 @@ import time
 import traceback
 
 
-def run_in_child(fn, args=(), timeout=300):
+def run_in_child(fn, args=(), timeout=300, new_session=True):
     r, w = os.pipe()
     pid = os.fork()
     if pid == 0:
         os.close(r)
         try:
-            try:
-                os.setsid()
-            except Exception:      # noqa
-                pass
+            if new_session:
+                try:
+                    os.setsid()
+                except Exception:      # noqa
+                    pass
             try:
                 out = ('ok', fn(*args))
             except BaseException:      # noqa
